@@ -181,7 +181,7 @@ def run(ctx):
     seen = set()
     for i in range(ctx.scale(25, 300)):
         tame = rng.random() < 0.75 and i != 0
-        pws = gen_passwords.gen_list(rng, n=rng.randint(8, 30), tame=tame)
+        pws = gen_passwords.gen_list(rng, n=rng.randint(8, 30), tame=tame, family=(True if i == 1 else None))
         if i == 1:
             # a fixed corpus of boundary shapes, whatever the seed: every keyboard run of the pool alone and embedded
             pws += gen_passwords.WALKS + ['monkey' + w for w in gen_passwords.WALKS] + [w + 'Summer1' for w in gen_passwords.WALKS]
